@@ -3,8 +3,7 @@
 `XWiki20Renderer().render(Document(text))` and `LaTeXRenderer().render(Document(text))` (inside `with R() as r:`; process-global parser state reset after every
 case) against the Lean models `Document.parse` + `Jira.render` / `XWiki.render` (lean/Mistletoe/Model/Jira.lean,
 XWiki.lean; driver ops "jira.render", "xwiki.render"), byte for byte, on two paths: from the text (parser model +
-renderer model) and from the exported real token tree (renderer model alone, so trees with tokens the parser model
-does not produce - the XWiki macro tokens - are covered too).
+renderer model) and from the exported real token tree (renderer model alone).
 """
 import re
 
@@ -13,9 +12,6 @@ import impl
 from common import driver_batch
 
 RENDERERS = [('JiraRenderer', 'jira.render'), ('XWiki20Renderer', 'xwiki.render'), ('LaTeXRenderer', 'latex.text')]
-# the parser model does not run the `find` of the two XWiki macro tokens: texts in which one of the patterns could match
-# are compared on the tree path only
-MACRO = re.compile(r'\{\{')
 
 
 def real(rname, text):
@@ -48,7 +44,7 @@ def run(ctx, texts, unit_prefix=''):
     for i, t in enumerate(texts):
         rname, op = RENDERERS[i % len(RENDERERS)]
         res, btypes, stypes, tree = real(rname, t)
-        if not (rname == 'XWiki20Renderer' and MACRO.search(t)):
+        if True:
             reqs.append({'op': op, 'text': t, 'types': btypes, 'span': stypes, 'fuel': 1000000})
             exp.append(res)
             meta.append((unit_prefix + op, {'text': t}, 'text'))
